@@ -465,6 +465,9 @@ impl<L: Localize> Iterator for TimeDomainIterator<L> {
     type Item = DateTimeRange;
 
     fn next(&mut self) -> Option<Self::Item> {
+        #[cfg(oh_verif)]
+        crate::verif_hooks::tick(crate::verif_hooks::Site::IterNext);
+
         if let Some(curr_tr) = self.curr_schedule.peek().cloned() {
             let start = NaiveDateTime::new(
                 self.curr_date,
